@@ -154,6 +154,11 @@ func (s *strct) Parse(ctx *parseContext, parent reflect.Value) (out []reflect.Va
 	start := ctx.RawCursor()
 	t := ctx.Peek()
 	s.maybeInjectStartToken(t, sv)
+	// Captures deferred so far belong to the enclosing production's (possibly still speculative)
+	// branch; only this struct's own captures may be applied here.
+	outerApply := ctx.apply
+	ctx.apply = nil
+	defer func() { ctx.apply = outerApply }()
 	if out, err = s.expr.Parse(ctx, sv); err != nil {
 		_ = ctx.Apply() // Best effort to give partial AST.
 		ctx.MaybeUpdateError(err)
